@@ -122,6 +122,18 @@ func buildScripted() core.BuildFunc {
 		h.r = rig.NewSECS1(w, rig.Opts1{Active: sc.Active, Equip: sc.Equip, Device: sc.Device, T1: 40 * time.Millisecond, T2: sc.T2, T3: 30 * time.Second, T4: 20 * time.Second,
 			T5: 200 * time.Millisecond, Retry: sc.Retry, BackoffInit: 20 * time.Millisecond, BackoffMult: 2, CloseTimeout: time.Second})
 		r := h.r
+		if w.T.Choose("scn", 2) == 1 {
+			// the peer's handshake characters may reach the library in one read (ACK + the next ENQ)
+			r.N.Coalesce = func(*simnet.Pipe) bool {
+				if w.T.Choose("net", 2) == 1 {
+					w.Probe("writes_coalesced_into_one_segment")
+
+					return true
+				}
+
+				return false
+			}
+		}
 		if sc.Active {
 			r.N.OnConnect = func(l *simnet.Link) simnet.RawEnd {
 				if h.p != nil && !h.p.Dead {
